@@ -3,7 +3,7 @@
     only converts integers.  Decoding of the flat integer stream into model
     records is done here, in Gallina. *)
 From RP2V Require Import Base.Prelude Base.Time Base.Dec Model.Types Model.Generated Model.Txn Model.Matcher
-  Model.MatchSpec Model.Pipeline Model.Codec Model.Computed.
+  Model.MatchSpec Model.Pipeline Model.Codec Model.Computed Model.Parser.
 Open Scope Z_scope.
 
 Definition b2z (b : bool) : Z := if b then 1 else 0.
@@ -127,3 +127,23 @@ Definition entry_computed (a : list Z) : list Z :=
     end
   | _ => [-1]
   end.
+
+(** cmd 40 -- parse one sheet: [in_header; out_header; intra_header; assets; exchanges; holders; asset; counter;
+    timestamp oracle; rows] -> constructed transactions in insertion order *)
+Definition entry_parse (a : list Z) : list Z :=
+  match rd_list rd_pair a with None => [-1] | Some (hi, s1) =>
+  match rd_list rd_pair s1 with None => [-1] | Some (ho, s2) =>
+  match rd_list rd_pair s2 with None => [-1] | Some (hx, s3) =>
+  match rd_list rd_str s3 with None => [-1] | Some (assets, s4) =>
+  match rd_list rd_str s4 with None => [-1] | Some (exs, s5) =>
+  match rd_list rd_str s5 with None => [-1] | Some (hos, s6) =>
+  match rd_str s6 with None => [-1] | Some (asset, s7) =>
+  match s7 with [] => [-1] | counter :: s8 =>
+  match rd_list rd_tsent s8 with None => [-1] | Some (tst, s9) =>
+  match rd_list (rd_list rd_cell) s9 with None => [-1] | Some (rows, _) =>
+    let cfg := {| pc_in := hi; pc_out := ho; pc_intra := hx; pc_assets := assets; pc_exchanges := exs; pc_holders := hos; pc_ts := tst |} in
+    match parse_sheet cfg asset counter rows with
+    | Err e => [err_code e]
+    | Ok p => 0 :: pa_counter p :: enc_list enc_intx (pa_ins p) ++ enc_list enc_outtx (pa_outs p) ++ enc_list enc_intratx (pa_intras p)
+    end
+  end end end end end end end end end end.
